@@ -647,7 +647,7 @@ End Collect.
 (* ---- forest_outs *)
 Lemma In_fold_addn cs : forall acc t, In t (fold_left (fun a c => addn c a) cs acc) <-> In t acc \/ In t cs.
 Proof.
-  induction cs as [|c r IH]; intros acc t; simpl; [tauto|]. rewrite IH, In_addn. intuition. subst. auto.
+  induction cs as [|c r IH]; intros acc t; simpl; [tauto|]. rewrite IH, In_addn. intuition (subst; auto).
 Qed.
 
 Lemma forest_outs_spec g q all : forall es acc outs, forest_outs g es all q acc = Some outs ->
@@ -674,10 +674,10 @@ Proof.
       * intros n0 o0 [<-|Hn0] Ho0.
         -- rewrite Eo in Ho0. injection Ho0 as <-. split; auto. intros c Hc.
            destruct (memn c all) eqn:Em; [now left|]. right. apply H2. apply In_fold_addn. right. unfold cs. apply filter_In. split; auto. now rewrite Em.
-        -- now apply H3.
+        -- exact (H3 n0 o0 Hn0 Ho0).
     + destruct (IH _ _ H) as (H1 & H2 & H3). split; [|split]; auto.
       * intros t Ht. destruct (H1 t Ht) as [Hacc|(n0 & o0 & Hn0 & Hrest)]; [now left|]. right. exists n0, o0. split; [now right | exact Hrest].
-      * intros n0 o0 [<-|Hn0] Ho0; [congruence | now apply H3].
+      * intros n0 o0 [<-|Hn0] Ho0; [congruence | exact (H3 n0 o0 Hn0 Ho0)].
 Qed.
 
 Lemma all_perm_eq_spec ts p : all_perm_eq ts = Some p -> forall t, In t ts -> perm_of t = Some p.
@@ -713,9 +713,13 @@ Proof.
   injection H as <-. apply andb_prop in Ecnd as [Ecnd Hcaps]. apply andb_prop in Ecnd as [Hmem Hguard]. apply negb_true_iff in Hguard.
   exists v0, p, q. constructor; cbn [f_ts f_es f_outs]; auto.
   - repeat split; auto. now apply memn_In.
-  - apply (collect_inv g v0 _ _ _ _ _ _ _ (A:=_)) in Ec; auto.
-    split; [|split; [|split; [|split]]]; try (intros ? []).
-    intros v [<-|[]] _. constructor.
+  - apply (collect_inv g v0 (collect_fuel g) [v0] [] [] [] ts es); [|exact Ec].
+    split; [|split; [|split; [|split]]].
+    + intros n0 Hn0. destruct Hn0.
+    + intros n0 Hn0. destruct Hn0.
+    + intros n0 Hn0. destruct Hn0.
+    + intros n0 Hn0. destruct Hn0.
+    + intros v1 Hv1 _. destruct Hv1 as [<-|Hv1]; [constructor | destruct Hv1].
   - now apply all_perm_eq_spec.
   - destruct (forest_outs_spec _ _ _ _ _ _ Eo) as (H1 & _ & H3). split.
     + intros t Ht. destruct (H1 t Ht) as [[]|Hx]. exact Hx.
@@ -725,3 +729,535 @@ Proof.
     apply existsb_exists. exists t. split; auto. now apply memn_In.
   - intros n Hn. rewrite forallb_forall in Hcaps. specialize (Hcaps n Hn). unfold no_caps in Hcaps. destruct (n_caps n); [reflexivity|discriminate].
 Qed.
+
+(* the operands of an elementwise node are one-element tensors or have ONE common shape (no genuine broadcasting between
+   two multi-element operands) in the run at hand: part of what the region theorems need from the world *)
+Definition uniform_operands (A : Type) (sem : string -> list nat -> list (tensor A) -> option (list (tensor A)))
+  (g : tgraph) (e : env (tensor A)) : Prop :=
+  forall ef n vs, eval (tensor A) sem (tg_nodes g) e = Some ef -> In n (tg_nodes g) -> is_elem n = true ->
+    str_in (nop n) pw_ops_all = true -> lookups (tensor A) ef (n_uses n) = Some vs -> operands_ok vs.
+
+Section ForestSound.
+  Variable A : Type.
+  Notation V := (tensor A).
+  Variable sem : string -> list nat -> list V -> option (list V).
+  Hypothesis sem_proper : forall op ats vs vs' o, Forall2 teq vs vs' -> sem op ats vs = Some o ->
+    exists o', sem op ats vs' = Some o' /\ Forall2 teq o o'.
+  Hypothesis Htr : sem_transpose_spec A sem op_type.
+  Variable F : string -> list nat -> list A -> A.
+  Hypothesis Hpw : sem_pointwise_spec_a A sem op_type F.
+  Variable Fcl : list nat -> V -> A -> A.
+  Hypothesis Hcl : sem_castlike_spec_n A sem op_type Fcl.
+  Hypothesis Hcl_type : castlike_type_only A Fcl.
+  Hypothesis Hacc : sem_accepts_spec_a A sem op_type.
+  Notation evalg := (eval V sem).
+  Notation refinesg := (refines V teq sem).
+  Notation tadmissible := (tadmissible A sem).
+
+  Lemma lookups_one (E : env V) xs v : lookups V E xs = Some [v] -> exists x, xs = [x] /\ E x = Some v.
+  Proof.
+    destruct xs as [|x [|y r]]; simpl; intro H; try discriminate.
+    - destruct (E x) eqn:Ex; [|discriminate]. injection H as <-. eauto.
+    - destruct (E x); [|discriminate]. destruct (E y); [|discriminate]. destruct (lookups V E r); discriminate.
+  Qed.
+
+  (* the value of an elementwise node without nested graphs, in the final environment *)
+  Lemma elem_val g e ef n : tadmissible g e -> uniform_operands A sem g e -> evalg (tg_nodes g) e = Some ef ->
+    In n (tg_nodes g) -> is_elem n = true -> n_caps n = [] ->
+    exists vs yv, n_outs n = [out_of n] /\ lookups V ef (n_ins n) = Some vs /\ ef (out_of n) = Some yv /\
+      ((nop n = "CastLike"%string /\ exists x t, vs = [x; t] /\ length (shape yv) = length (shape x)) \/
+       (str_in (nop n) pw_ops_all = true /\ forall v, In v vs -> length (shape v) <= length (shape yv))).
+  Proof.
+    intros Hadm Huni Hev Hn Hel Hcaps.
+    destruct (eval_consistent V sem _ _ _ n (tadm_ssa _ _ _ _ Hadm) Hev Hn) as (vs & o & Hl & Hs & Hlo).
+    assert (Hl' : lookups V ef (n_ins n) = Some vs) by (unfold n_uses in Hl; now rewrite Hcaps, app_nil_r in Hl).
+    assert (Hone : forall y, o = [y] -> n_outs n = [out_of n] /\ ef (out_of n) = Some y).
+    { intros y ->. destruct (lookups_one ef _ _ Hlo) as (x & Hx & Ex). unfold out_of. rewrite Hx. auto. }
+    destruct (elem_in_pw_all _ Hel) as [Hop|Hop].
+    - destruct (Hcl _ _ _ _ Hop Hs) as (x & t & y & -> & Ho & Hy). destruct (Hone y Ho) as [H1 H2].
+      exists [x; t], y. repeat split; auto. left. split; auto. exists x, t. split; auto. now rewrite (proj1 Hy).
+    - pose proof (Huni ef n vs Hev Hn Hel Hop Hl) as Hok.
+      destruct (Hpw _ _ _ _ Hop Hs Hok) as (y & Ho & Hy). destruct (Hone y Ho) as [H1 H2].
+      exists vs, y. repeat split; auto. right. split; auto. intros v Hv. rewrite (proj1 Hy). now apply pwn_rank_ge.
+  Qed.
+
+  Section Forest.
+    Variables (g : tgraph) (t2 : node) (f : forest) (v0 : name) (p q : list nat) (e ef : env V).
+    Hypothesis Hff : forest_facts g t2 f v0 p q.
+    Hypothesis Hadm : tadmissible g e.
+    Hypothesis Huni : uniform_operands A sem g e.
+    Hypothesis Hev : evalg (tg_nodes g) e = Some ef.
+    Hypothesis Hcts : castlike_types_scalar g (f_es f) = true.
+    Let Hssa := tadm_ssa _ _ _ _ Hadm.
+    Let Hnd : NoDup (defs (tg_nodes g)) := proj1 Hssa.
+    Let r := forest_region g f.
+
+    Lemma f_es_in n : In n (f_es f) -> In n (tg_nodes g) /\ is_elem n = true /\ n_caps n = [].
+    Proof.
+      intro Hn. destruct (ff_collect _ _ _ _ _ _ Hff) as (H1 & _). destruct (H1 n Hn) as (Ha & Hb & _).
+      repeat split; auto. apply (ff_caps _ _ _ _ _ _ Hff). apply in_or_app. now left.
+    Qed.
+    Lemma f_es_val n : In n (f_es f) ->
+      exists vs yv, n_outs n = [out_of n] /\ lookups V ef (n_ins n) = Some vs /\ ef (out_of n) = Some yv /\
+        ((nop n = "CastLike"%string /\ exists x t, vs = [x; t] /\ length (shape yv) = length (shape x)) \/
+         (str_in (nop n) pw_ops_all = true /\ forall v, In v vs -> length (shape v) <= length (shape yv))).
+    Proof. intro Hn. destruct (f_es_in n Hn) as (H1 & H2 & H3). now apply (elem_val g e). Qed.
+
+    Lemma T_val t pt : In t (tg_nodes g) -> is_T t = true -> perm_of t = Some pt -> n_caps t = [] ->
+      n_outs t = [out_of t] /\ exists x vx vy, n_ins t = [x] /\ ef x = Some vx /\ ef (out_of t) = Some vy /\
+        teq vy (transpose pt vx) /\ length pt = length (shape vx).
+    Proof.
+      intros Hin HT Hpt Hcaps.
+      destruct (tnode_final A sem Htr g e ef t pt Hadm Hev Hin HT Hpt) as (u & y & x & vy & Eu & Eo & Ex & Ey & Ht & Hl).
+      unfold n_uses in Eu. rewrite Hcaps, app_nil_r in Eu. unfold out_of. rewrite Eo. split; auto. exists u, x, vy. auto.
+    Qed.
+    Lemma f_ts_val t : In t (f_ts f) -> In t (tg_nodes g) /\ is_T t = true /\ perm_of t = Some p /\ n_caps t = [] /\
+      n_outs t = [out_of t] /\ exists x, n_ins t = [x].
+    Proof.
+      intro Ht. destruct (ff_collect _ _ _ _ _ _ Hff) as (_ & H2 & _). destruct (H2 t Ht) as [Hin HT].
+      pose proof (ff_perm _ _ _ _ _ _ Hff t Ht) as Hpt.
+      assert (Hcaps : n_caps t = []) by (apply (ff_caps _ _ _ _ _ _ Hff); apply in_or_app; right; apply in_or_app; now left).
+      destruct (T_val t p Hin HT Hpt Hcaps) as (Ho & x & _ & _ & Hi & _). repeat split; eauto.
+    Qed.
+    Lemma f_outs_val t : In t (f_outs f) -> In t (tg_nodes g) /\ is_T t = true /\ perm_of t = Some q /\ n_caps t = [] /\
+      n_outs t = [out_of t] /\ exists n, In n (f_es f) /\ n_ins t = [out_of n] /\ ~ In t (f_es f).
+    Proof.
+      intro Ht. destruct (proj1 (ff_outs _ _ _ _ _ _ Hff) t Ht) as (n & o & Hn & Ho & Hc & Hnm & HT & Hpt).
+      unfold consumers in Hc. apply filter_In in Hc as [Hin Hread].
+      assert (Hcaps : n_caps t = []) by (apply (ff_caps _ _ _ _ _ _ Hff); apply in_or_app; right; apply in_or_app; now right).
+      destruct (T_val t q Hin HT Hpt Hcaps) as (Hout & x & _ & _ & Hi & _).
+      destruct (f_es_val n Hn) as (_ & _ & Hno & _). unfold out1 in Ho. rewrite Hno in Ho. simpl in Ho. injection Ho as <-.
+      apply existsb_exists in Hread as (z & Hz & E). apply Nat.eqb_eq in E. subst z. rewrite Hi in Hz. destruct Hz as [->|[]].
+      repeat split; auto. exists n. repeat split; auto. intro H. apply memn_In in H. congruence.
+    Qed.
+
+    Let Hlen_pq : length p = length q := proj1 (proj1 (inv_ok_perms p q (ff_inv _ _ _ _ _ _ Hff))).
+
+    (* ranks only grow along data operands, and T2 accepted the value at the root *)
+    Lemma flows_rank y : flows (f_es f) v0 y -> forall vy, ef y = Some vy -> length (shape vy) <= length p.
+    Proof.
+      induction 1 as [|y m y' Hm Hy Hcl0 Hy' _ IH]; intros vy Ey.
+      - destruct (ff_t2 _ _ _ _ _ _ Hff) as (HT & Hf0 & Hq0 & Hin).
+        destruct (f_outs_val t2 Hin) as (Hin2 & _ & _ & Hcaps & _).
+        destruct (T_val t2 q Hin2 HT Hq0 Hcaps) as (_ & x & vx & _ & Hi & Ex & _ & _ & Hl).
+        unfold first_in in Hf0. rewrite Hi in Hf0. simpl in Hf0. injection Hf0 as ->. rewrite Ey in Ex. injection Ex as ->.
+        rewrite Hlen_pq, Hl. auto.
+      - destruct (f_es_val m Hm) as (vs & yv & Hmo & Hl & Eyv & Hcase). rewrite Hmo in Hy'. destruct Hy' as [<-|[]].
+        specialize (IH yv Eyv). destruct Hcase as [(Hop & x & t & -> & Hsh)|(Hop & Hle)].
+        + specialize (Hcl0 Hop). destruct (n_ins m) as [|i0 rest]; [discriminate|]. simpl in Hcl0. injection Hcl0 as ->.
+          simpl in Hl. rewrite Ey in Hl. destruct (lookups V ef rest); [|discriminate]. injection Hl as <- _. lia.
+        + pose proof (lookups_In_val A ef _ _ _ _ Hl Hy Ey) as Hv. specialize (Hle vy Hv). lia.
+    Qed.
+
+    Lemma forest_rank n u v : In n (f_es f) -> str_in (nop n) pw_ops_all = true -> In u (n_ins n) -> ef u = Some v ->
+      length (shape v) <= length p.
+    Proof.
+      intros Hn Hop Hu Ev. destruct (f_es_val n Hn) as (vs & yv & Hno & Hl & Eyv & Hcase).
+      destruct (ff_collect _ _ _ _ _ _ Hff) as (_ & _ & H3). destruct (H3 n Hn Hcts) as (v1 & Hv1 & Hf).
+      rewrite Hno in Hv1. destruct Hv1 as [<-|[]]. pose proof (flows_rank _ Hf yv Eyv) as Hry.
+      destruct Hcase as [(Hcl0 & _)|(_ & Hle)].
+      - rewrite Hcl0 in Hop. vm_compute in Hop. discriminate.
+      - pose proof (lookups_In_val A ef _ _ _ _ Hl Hu Ev) as Hv. specialize (Hle v Hv). lia.
+    Qed.
+
+    (* ---- the input Transposes removed by the pass have no reader left *)
+    Lemma ren_out_T t : In t (f_ts f) -> ren_out r (out_of t) = out_of t.
+    Proof.
+      intro Ht. apply lookup_ren_notin. intros [o i] Hin E. simpl in E. subst o.
+      apply pairs_of_in in Hin as (t' & Ht' & Ho' & _). cbn [r forest_region r_outs] in Ht'.
+      destruct (f_outs_val t' Ht') as (Hin' & _ & _ & _ & Hto' & _). destruct (f_ts_val t Ht) as (Hin0 & _ & _ & _ & Hto & _).
+      unfold out1 in Ho'. rewrite Hto' in Ho'. simpl in Ho'. injection Ho' as Ho'.
+      assert (t' = t) by (apply (owner_unique g Hnd t' t (out_of t')); auto; rewrite Hto, Ho'; now left). subst t'.
+      exact (ff_guard _ _ _ _ _ _ Hff t Ht Ht').
+    Qed.
+
+    Lemma forest_dead_raw t : In t (r_dead r) ->
+      In t (f_ts f) /\ ~ In (out_of t) (tg_outputs g) /\
+      forall m, In m (tg_nodes g) -> ~ In m (f_outs f) -> memn m (f_es f) = false -> ~ In (out_of t) (n_uses m).
+    Proof.
+      intro Hd. cbn [r forest_region r_dead] in Hd. apply filter_In in Hd as [Ht Hdead].
+      destruct (f_ts_val t Ht) as (Htin & _ & _ & _ & Hto & _).
+      unfold out1 in Hdead. rewrite Hto in Hdead. cbn [hd_error] in Hdead.
+      apply andb_prop in Hdead as [Hd1 Hd2]. apply negb_true_iff in Hd1, Hd2. apply orb_false_iff in Hd2 as [Hd2 Hd3].
+      pose proof (ren_out_T t Ht) as Hren. cbn [r forest_region] in Hren.
+      split; [exact Ht|]. split.
+      - intro Ho. assert (mem (out_of t) (map (ren_out (mkR (f_es f) (f_ts f) (f_outs f) [])) (tg_outputs g)) = true); [|congruence].
+        apply mem_In. apply in_map_iff. exists (out_of t). split; auto.
+      - intros m Hm HmO Hmes Huse.
+        assert (Hlive : In (region_tr (mkR (f_es f) (f_ts f) (f_outs f) []) m)
+                          (map (region_tr (mkR (f_es f) (f_ts f) (f_outs f) [])) (filter (region_keep (mkR (f_es f) (f_ts f) (f_outs f) [])) (tg_nodes g)))).
+        { apply in_map. apply filter_In. split; auto. unfold region_keep. cbn [r_outs r_dead]. rewrite (memn_false _ _ HmO). reflexivity. }
+        assert (Htrm : region_tr (mkR (f_es f) (f_ts f) (f_outs f) []) m = subst_map (ren_out (mkR (f_es f) (f_ts f) (f_outs f) [])) m).
+        { unfold region_tr. cbn [r_es]. now rewrite Hmes. }
+        rewrite Htrm in Hlive. unfold n_uses in Huse. apply in_app_or in Huse as [Hu|Hu].
+        + assert (existsb (fun m0 => mem (out_of t) (n_ins m0)) (map (region_tr (mkR (f_es f) (f_ts f) (f_outs f) [])) (filter (region_keep (mkR (f_es f) (f_ts f) (f_outs f) [])) (tg_nodes g))) = true); [|congruence].
+          apply existsb_exists. eexists. split; [exact Hlive|]. apply mem_In. cbn [subst_map n_ins]. apply in_map_iff. exists (out_of t). auto.
+        + assert (existsb (fun m0 => mem (out_of t) (n_caps m0)) (map (region_tr (mkR (f_es f) (f_ts f) (f_outs f) [])) (filter (region_keep (mkR (f_es f) (f_ts f) (f_outs f) [])) (tg_nodes g))) = true); [|congruence].
+          apply existsb_exists. eexists. split; [exact Hlive|]. apply mem_In. cbn [subst_map n_caps]. apply in_map_iff. exists (out_of t). auto.
+    Qed.
+
+    Lemma forest_region_facts : region_facts g r p q.
+    Proof.
+      destruct (ff_collect _ _ _ _ _ _ Hff) as (C1 & C2 & C3). destruct (ff_outs _ _ _ _ _ _ Hff) as [O1 O3].
+      assert (HD : forall n, In n (f_es f) -> out1 n = Some (out_of n)).
+      { intros n Hn. destruct (f_es_val n Hn) as (_ & _ & Ho & _). unfold out1. now rewrite Ho. }
+      constructor; cbn [r forest_region r_es r_ts r_outs].
+      - exact (ff_inv _ _ _ _ _ _ Hff).
+      - intros n Hn. destruct (f_es_in n Hn) as (H1 & H2 & H3). destruct (f_es_val n Hn) as (_ & _ & Ho & _). auto.
+      - intros n u Hn Hu. destruct (C1 n Hn) as (_ & _ & Hc). destruct (Hc u Hu) as [Hs|(m & Hm & [[HT Hin]|Hin])]; auto.
+        + right. left. exists m. split; auto. destruct (f_ts_val m Hin) as (_ & _ & _ & _ & Ho & _).
+          apply producer_spec in Hm as [_ Hu']. rewrite Ho in Hu'. destruct Hu' as [E|[]]. exact E.
+        + left. unfold outs_of. apply in_map_iff. exists m. split; auto. destruct (f_es_val m Hin) as (_ & _ & Ho & _).
+          apply producer_spec in Hm as [_ Hu']. rewrite Ho in Hu'. destruct Hu' as [E|[]]. exact E.
+      - intros t Ht. destruct (f_ts_val t Ht) as (H1 & H2 & H3 & H4 & H5 & x & Hx). repeat split; auto. exists x. repeat split; auto.
+        + (* the guard: a source that is a region output would make t a consumer Transpose *)
+          intro HxD. unfold outs_of in HxD. apply in_map_iff in HxD as (n & En & Hn).
+          destruct (O3 n x Hn) as [_ Hc]; [rewrite (HD n Hn); now rewrite En|].
+          assert (Htc : In t (consumers (tg_nodes g) x)).
+          { unfold consumers. apply filter_In. split; auto. apply existsb_exists. exists x. rewrite Hx. split; [now left | apply Nat.eqb_refl]. }
+          destruct (Hc t Htc) as [He|Ho]; [|exact (ff_guard _ _ _ _ _ _ Hff t Ht Ho)].
+          destruct (f_es_in t He) as (_ & He' & _). rewrite (elem_not_T _ He') in H2. discriminate.
+        + intro HxDead. unfold outs_of in HxDead. apply in_map_iff in HxDead as (tk & Ek & Htk).
+          destruct (forest_dead_raw tk Htk) as (_ & _ & Hno). apply (Hno t H1).
+          * exact (ff_guard _ _ _ _ _ _ Hff t Ht).
+          * apply memn_false. intro He. destruct (f_es_in t He) as (_ & He' & _). rewrite (elem_not_T _ He') in H2. discriminate.
+          * unfold n_uses. rewrite Hx, Ek. now left.
+      - intros t Ht. destruct (f_outs_val t Ht) as (H1 & H2 & H3 & H4 & H5 & n & Hn & Hi & _). repeat split; auto.
+        exists (out_of n). repeat split; auto. unfold outs_of. apply in_map_iff. eauto.
+      - exact (ff_guard _ _ _ _ _ _ Hff).
+      - intros t Ht. destruct (forest_dead_raw t Ht) as (H1 & H2 & H3). repeat split; auto.
+        intros m Hm Hk Hmes. apply H3; auto. unfold region_keep in Hk. apply andb_prop in Hk as [Hk _]. apply negb_true_iff in Hk.
+        intro Hin. apply memn_In in Hin. cbn [r forest_region r_outs] in Hk. congruence.
+      - intros y Hy. unfold outs_of in Hy. apply in_map_iff in Hy as (n & <- & Hn). destruct (O3 n _ Hn (HD n Hn)) as [Hobs _].
+        now apply tobserved_false.
+      - intros y m Hy Hm Hym. unfold outs_of in Hy. apply in_map_iff in Hy as (n & <- & Hn). destruct (O3 n _ Hn (HD n Hn)) as [_ Hc].
+        apply Hc. unfold consumers. apply filter_In. split; auto. apply existsb_exists. exists (out_of n). split; auto. apply Nat.eqb_refl.
+    Qed.
+
+    Lemma forest_run : refinesg (tg_graph g) (tg_graph (apply_forest g f)) e.
+    Proof.
+      apply (region_run A sem sem_proper Htr F Hpw Fcl Hcl Hcl_type Hacc g r p q e ef Hadm forest_region_facts Hev).
+      - intros n u v Hn. apply forest_rank. exact Hn.
+      - intros n vs Hn Hop Hl. destruct (f_es_in n Hn) as (H1 & H2 & H3).
+        apply (Huni ef n vs Hev H1 H2 Hop). unfold n_uses. now rewrite H3, app_nil_r.
+    Qed.
+  End Forest.
+End ForestSound.
+
+(* ================================================================ phase A: what decide_add establishes *)
+Lemma add_inputs_spec ns prev : forall ins pf hp nt pf' hp' nt', add_inputs ns prev ins pf hp nt = Some (pf', hp', nt') ->
+  (forall x, pf = Some x -> pf' = Some x) /\
+  forall iv, In iv ins -> exists pr, producer ns iv = Some pr /\
+    ((exists pv, prev = Some pv /\ pr = pv) \/ (is_T pr = true /\ exists pp, perm_of pr = Some pp /\ pf' = Some pp)).
+Proof.
+  induction ins as [|iv r IH]; intros pf hp nt pf' hp' nt' H; simpl in H.
+  - injection H as <- <- <-. split; auto. intros iv [].
+  - destruct (producer ns iv) as [pr|] eqn:Epr; [|discriminate].
+    destruct (match prev with Some pv => node_eqb pr pv | None => false end) eqn:Eprev.
+    + destruct (IH _ _ _ _ _ _ H) as [Hm Hall]. split; auto. intros iv0 [<-|Hin]; [|now apply Hall].
+      exists pr. split; auto. left. destruct prev as [pv|]; [|discriminate]. apply node_eqb_eq in Eprev. eauto.
+    + destruct (is_T pr) eqn:ET; [|discriminate]. cbn [negb] in H. destruct (perm_of pr) as [pp|] eqn:Epp; [|discriminate].
+      destruct pf as [p0|].
+      * destruct (leqb p0 pp) eqn:El; [|discriminate]. apply leqb_eq in El. subst pp.
+        destruct (IH _ _ _ _ _ _ H) as [Hm Hall]. split; auto. intros iv0 [<-|Hin]; [|now apply Hall].
+        exists pr. split; auto. right. split; auto. exists p0. split; auto.
+      * destruct (IH _ _ _ _ _ _ H) as [Hm Hall]. split; [intros x Hx; discriminate|]. intros iv0 [<-|Hin]; [|now apply Hall].
+        exists pr. split; auto. right. split; auto. exists pp. split; auto.
+Qed.
+
+Lemma other_consumers_spec : forall cs pi pi', other_consumers_ok cs pi = Some pi' ->
+  (forall x, pi = Some x -> pi' = Some x) /\
+  forall c, In c cs -> is_T c = true /\ exists pp, perm_of c = Some pp /\ pi' = Some pp.
+Proof.
+  induction cs as [|c r IH]; intros pi pi' H; simpl in H.
+  - injection H as <-. split; auto. intros c [].
+  - destruct (is_T c) eqn:ET; [|discriminate]. cbn [negb] in H. destruct (perm_of c) as [pp|] eqn:Epp; [|discriminate].
+    destruct pi as [p0|].
+    + destruct (leqb p0 pp) eqn:El; [|discriminate]. apply leqb_eq in El. subst pp.
+      destruct (IH _ _ H) as [Hm Hall]. split; auto. intros c0 [<-|Hin]; [|now apply Hall]. split; auto. exists p0. auto.
+    + destruct (IH _ _ H) as [Hm Hall]. split; [intros x Hx; discriminate|]. intros c0 [<-|Hin]; [|now apply Hall]. split; auto. exists pp. auto.
+Qed.
+
+Definition add_member_ok (g : tgraph) (st : addst) (c : node) : Prop :=
+  In c (tg_nodes g) /\ is_add c = true /\
+  (forall iv, In iv (n_ins c) -> exists pr, producer (tg_nodes g) iv = Some pr /\
+     (In pr (as_chain st) \/ (is_T pr = true /\ exists pp, perm_of pr = Some pp /\ as_fwd st = Some pp))) /\
+  exists out, out1 c = Some out /\ tobserved g out = false /\
+    forall m, In m (consumers (tg_nodes g) out) ->
+      In m (as_chain st) \/ (is_T m = true /\ exists pp, perm_of m = Some pp /\ as_inv st = Some pp).
+
+Lemma add_member_mono g st st' c : (forall m, In m (as_chain st) -> In m (as_chain st')) ->
+  (forall x, as_fwd st = Some x -> as_fwd st' = Some x) -> (forall x, as_inv st = Some x -> as_inv st' = Some x) ->
+  add_member_ok g st c -> add_member_ok g st' c.
+Proof.
+  intros Hc Hf Hi (H1 & H2 & H3 & out & H4 & H5 & H6). split; [exact H1|]. split; [exact H2|]. split.
+  - intros iv Hiv. destruct (H3 iv Hiv) as (pr & Hpr & Hcase). exists pr. split; [exact Hpr|].
+    destruct Hcase as [Hin|(HT & pp & Hpp & Hfw)]; [left; now apply Hc|]. right. split; auto. exists pp. auto.
+  - exists out. split; [exact H4|]. split; [exact H5|]. intros m Hm.
+    destruct (H6 m Hm) as [Hin|(HT & pp & Hpp & Hiv)]; [left; now apply Hc|]. right. split; auto. exists pp. auto.
+Qed.
+
+Lemma add_walk_spec g : forall fuel prev cur st st', add_walk g fuel prev cur st = Some st' -> In cur (tg_nodes g) ->
+  (forall pv, prev = Some pv -> In pv (as_chain st)) ->
+  exists new, as_chain st' = as_chain st ++ new /\ In cur new /\
+    (forall x, as_fwd st = Some x -> as_fwd st' = Some x) /\ (forall x, as_inv st = Some x -> as_inv st' = Some x) /\
+    forall c, In c new -> add_member_ok g st' c.
+Proof.
+  induction fuel as [|k IH]; intros prev cur st st' H Hcur Hprev; [discriminate|]. cbn [add_walk] in H.
+  destruct (is_add cur) eqn:Eadd; [|discriminate]. cbn [negb] in H.
+  destruct (Nat.ltb (length (n_ins cur)) 2); [discriminate|].
+  destruct (add_inputs (tg_nodes g) prev (n_ins cur) (as_fwd st) false 0) as [[[pf hp] nt]|] eqn:Eai; [|discriminate].
+  destruct (match prev with None => Nat.ltb nt 1 | Some _ => negb hp || negb (Nat.eqb nt 1) end); [discriminate|].
+  destruct (out1 cur) as [out|] eqn:Eo; [|discriminate].
+  set (cs := consumers (tg_nodes g) out) in *.
+  destruct (Nat.ltb 1 (length (filter is_add cs))) eqn:Elen; [discriminate|].
+  destruct (other_consumers_ok (filter (fun c => negb (is_add c)) cs) (as_inv st)) as [pi|] eqn:Eoc; [|discriminate].
+  destruct (tobserved g out) eqn:Eobs; [discriminate|].
+  destruct (add_inputs_spec _ _ _ _ _ _ _ _ _ Eai) as [Hfm Hins]. destruct (other_consumers_spec _ _ _ Eoc) as [Him Hoth].
+  (* cur is fine in every later state that contains the chain so far, cur, and cur's Add consumers *)
+  assert (Hcur_ok : forall st2, (forall m, In m (as_chain st ++ [cur]) -> In m (as_chain st2)) ->
+            (forall m, In m (filter is_add cs) -> In m (as_chain st2)) ->
+            (forall x, pf = Some x -> as_fwd st2 = Some x) -> (forall x, pi = Some x -> as_inv st2 = Some x) ->
+            add_member_ok g st2 cur).
+  { intros st2 Hpre Hadds Hf2 Hi2. split; [exact Hcur|]. split; [exact Eadd|]. split.
+    - intros iv Hiv. destruct (Hins iv Hiv) as (pr & Hpr & [(pv & Hpv & Epv)|(HT & pp & Hpp & Hfw)]); exists pr; (split; [exact Hpr|]).
+      + left. apply Hpre. apply in_or_app. left. rewrite Epv. now apply Hprev.
+      + right. split; auto. exists pp. auto.
+    - exists out. split; [exact Eo|]. split; [exact Eobs|]. intros m Hm. destruct (is_add m) eqn:Em.
+      + left. apply Hadds. apply filter_In. split; auto.
+      + right. destruct (Hoth m) as (HT & pp & Hpp & Hpi); [apply filter_In; split; auto; now rewrite Em|]. split; auto. exists pp. auto. }
+  destruct (filter is_add cs) as [|nx [|nx2 rest]] eqn:Eadds.
+  - injection H as <-. exists [cur]. cbn [as_chain as_fwd as_inv]. split; [reflexivity|]. split; [now left|]. split; [exact Hfm|]. split; [exact Him|].
+    intros c [<-|[]]. apply Hcur_ok; cbn [as_chain as_fwd as_inv]; auto. intros m [].
+  - assert (Hnx : In nx (tg_nodes g)).
+    { assert (Hin : In nx (filter is_add cs)) by (rewrite Eadds; now left). apply filter_In in Hin as [Hin _].
+      unfold cs, consumers in Hin. now apply filter_In in Hin as [Hin _]. }
+    destruct (IH (Some cur) nx (mkAS (as_chain st ++ [cur]) pf pi) st' H Hnx) as (new & Hch & Hnxin & Hf2 & Hi2 & Hnew).
+    { intros pv Hpv. injection Hpv as <-. cbn [as_chain]. apply in_or_app. right. now left. }
+    cbn [as_chain as_fwd as_inv] in *.
+    exists (cur :: new). rewrite Hch, <- app_assoc. split; [reflexivity|]. split; [now left|].
+    split; [intros x Hx; apply Hf2; now apply Hfm|]. split; [intros x Hx; apply Hi2; now apply Him|].
+    intros c [<-|Hc]; [|now apply Hnew].
+    apply Hcur_ok; auto.
+    + intros m Hm. rewrite Hch. apply in_or_app. now left.
+    + intros m [<-|[]]. rewrite Hch. apply in_or_app. now right.
+  - simpl in Elen. discriminate.
+Qed.
+
+Lemma add_ts_spec g st : forall l acc t,
+  In t (fold_left (fun acc iv => match producer (tg_nodes g) iv with
+                                 | Some pr => if is_T pr && permeq (perm_of pr) (as_fwd st) then addn pr acc else acc
+                                 | None => acc end) l acc) <->
+  In t acc \/ exists iv, In iv l /\ producer (tg_nodes g) iv = Some t /\ is_T t = true /\ permeq (perm_of t) (as_fwd st) = true.
+Proof.
+  induction l as [|iv r IH]; intros acc t; simpl.
+  - split; [now left | intros [H|(iv & [] & _)]; auto].
+  - rewrite IH. destruct (producer (tg_nodes g) iv) as [pr|] eqn:Epr.
+    + destruct (is_T pr && permeq (perm_of pr) (as_fwd st)) eqn:Ec.
+      * rewrite In_addn. apply andb_prop in Ec as [E1 E2]. split.
+        -- intros [[->|H]|(iv0 & Hiv0 & Hrest)]; [right; exists iv; auto | now left | right; exists iv0; auto].
+        -- intros [H|(iv0 & [<-|Hiv0] & Hp & Hrest)]; [left; now right | left; left; congruence | right; exists iv0; auto].
+      * split.
+        -- intros [H|(iv0 & Hiv0 & Hrest)]; [now left | right; exists iv0; auto].
+        -- intros [H|(iv0 & [<-|Hiv0] & Hp & HT & Hpe)]; [now left | | right; exists iv0; auto].
+           rewrite Epr in Hp. injection Hp as ->. rewrite HT, Hpe in Ec. discriminate.
+    + split.
+      * intros [H|(iv0 & Hiv0 & Hrest)]; [now left | right; exists iv0; auto].
+      * intros [H|(iv0 & [<-|Hiv0] & Hp & Hrest)]; [now left | congruence | right; exists iv0; auto].
+Qed.
+
+Lemma add_outs_spec g st : forall chain acc t,
+  In t (fold_left (fun acc n => match out1 n with
+                                | Some o => fold_left (fun a c => addn c a)
+                                              (filter (fun c => is_T c && permeq (perm_of c) (as_inv st)) (consumers (tg_nodes g) o)) acc
+                                | None => acc end) chain acc) <->
+  In t acc \/ exists n o, In n chain /\ out1 n = Some o /\ In t (consumers (tg_nodes g) o) /\ is_T t = true /\ permeq (perm_of t) (as_inv st) = true.
+Proof.
+  induction chain as [|n r IH]; intros acc t; simpl.
+  - split; [now left | intros [H|(n & o & [] & _)]; auto].
+  - rewrite IH. destruct (out1 n) as [o|] eqn:Eo.
+    + rewrite In_fold_addn, filter_In. split.
+      * intros [[H|[Hc Hk]]|(n0 & o0 & Hn0 & Hrest)]; [now left | | right; exists n0, o0; tauto].
+        apply andb_prop in Hk as [H1 H2]. right. exists n, o. auto.
+      * intros [H|(n0 & o0 & [<-|Hn0] & Ho0 & Hc & HT & Hpe)]; [left; now left | | right; exists n0, o0; auto].
+        rewrite Eo in Ho0. injection Ho0 as <-. left. right. split; auto. now rewrite HT, Hpe.
+    + split.
+      * intros [H|(n0 & o0 & Hn0 & Hrest)]; [now left | right; exists n0, o0; tauto].
+      * intros [H|(n0 & o0 & [<-|Hn0] & Ho0 & Hrest)]; [now left | congruence | right; exists n0, o0; auto].
+Qed.
+
+Lemma permeq_eq a b : permeq a (Some b) = true -> a = Some b.
+Proof. unfold permeq. destruct a as [x|]; [|discriminate]. intro H. apply leqb_eq in H. now subst. Qed.
+Lemma permeq_eq' a b : permeq (Some b) a = true -> a = Some b.
+Proof. unfold permeq. destruct a as [x|]; [|discriminate]. intro H. apply leqb_eq in H. now subst. Qed.
+
+Record add_facts (g : tgraph) (st : addst) (p q : list nat) : Prop := {
+  af_fwd : as_fwd st = Some p;
+  af_inv' : as_inv st = Some q;
+  af_ok : inv_ok p q = true;
+  af_members : forall c, In c (as_chain st) -> add_member_ok g st c;
+  af_guard : forall c iv pr s pp, In c (as_chain st) -> In iv (n_ins c) -> producer (tg_nodes g) iv = Some pr -> is_T pr = true ->
+      perm_of pr = Some p -> first_in pr = Some s -> producer (tg_nodes g) s = Some pp -> ~ In pp (as_chain st);
+  af_caps : forall n, In n (as_chain st ++ r_ts (add_region g st) ++ r_outs (add_region g st)) -> n_caps n = [] }.
+
+Lemma decide_add_facts g start st : In start (tg_nodes g) -> decide_add g start = Some st -> exists p q, add_facts g st p q.
+Proof.
+  intros Hstart H. unfold decide_add in H. destruct (is_add start); [|discriminate]. cbn [negb] in H.
+  destruct (add_walk g (S (length (tg_nodes g))) None start (mkAS [] None None)) as [st0|] eqn:Ew; [|discriminate].
+  destruct (as_chain st0) as [|c0 cr] eqn:Ech; [discriminate|]. destruct (as_fwd st0) as [pf|] eqn:Ef; [|discriminate].
+  destruct (as_inv st0) as [pi|] eqn:Ei; [|discriminate].
+  match type of H with (if ?c then _ else _) = _ => destruct c eqn:Ecnd; [|discriminate] end. injection H as <-.
+  apply andb_prop in Ecnd as [Ecnd Hguard]. apply andb_prop in Ecnd as [Hinv Hcaps]. apply negb_true_iff in Hguard.
+  destruct (add_walk_spec g _ _ _ _ _ Ew Hstart) as (new & Hnew & _ & _ & _ & Hmem); [intros pv Hpv; discriminate|].
+  simpl in Hnew. exists pf, pi. constructor; auto.
+  - intros c Hc. apply Hmem. now rewrite <- Hnew.
+  - intros c iv pr s pp Hc Hiv Hpr HT Hpp Hs Hps Hin.
+    rewrite <- Ech in Hguard. match type of Hguard with ?X = false => assert (X = true); [|congruence] end.
+    apply existsb_exists. exists c. split; auto. apply existsb_exists. exists iv. split; auto.
+    rewrite Hpr, HT, Hpp, Hs, Hps. simpl. unfold leqb.
+    assert (Hl : forall l, list_eqb Nat.eqb l l = true) by (induction l as [|x l IH]; simpl; [reflexivity | now rewrite Nat.eqb_refl]).
+    rewrite Hl. simpl. now apply memn_In.
+  - intros n Hn. rewrite <- Ech in Hcaps. rewrite forallb_forall in Hcaps. specialize (Hcaps n Hn). unfold no_caps in Hcaps. destruct (n_caps n); [reflexivity|discriminate].
+Qed.
+
+Lemma producer_complete ns n x : NoDup (defs ns) -> In n ns -> In x (n_outs n) -> producer ns x = Some n.
+Proof.
+  intros Hnd Hn Hx. unfold producer. destruct (find _ ns) as [m|] eqn:E.
+  - apply find_some in E as [Hm Hk]. apply existsb_exists in Hk as (z & Hz & Ez). apply Nat.eqb_eq in Ez. subst z.
+    f_equal. exact (defs_unique ns m n x Hnd Hm Hn Hz Hx).
+  - exfalso. pose proof (find_none _ _ E n Hn) as H. simpl in H.
+    assert (existsb (Nat.eqb x) (n_outs n) = true) by (apply existsb_exists; exists x; split; auto; apply Nat.eqb_refl). congruence.
+Qed.
+
+Lemma pwn_rank_le {A} (F : list A -> A) (vs : list (tensor A)) k : Forall (fun v => length (shape v) <= k) vs ->
+  length (shape (pwn F vs)) <= k.
+Proof.
+  intro H. pose proof (prank_le _ _ H) as Hp. unfold pwn, full_shape. cbn [shape].
+  destruct (find (fun v => negb (all1 (shape v))) vs) as [y|] eqn:E.
+  - apply find_some in E as [Hy _]. rewrite Forall_forall in H. specialize (H y Hy). rewrite app_length, repeat_length. lia.
+  - rewrite app_length, repeat_length. simpl. lia.
+Qed.
+
+Lemma is_add_elem n : is_add n = true -> is_elem n = true.
+Proof. unfold is_add, is_elem. intro H. apply String.eqb_eq in H. rewrite H. vm_compute. reflexivity. Qed.
+Lemma add_is_pw n : is_add n = true -> str_in (nop n) pw_ops_all = true.
+Proof. unfold is_add. intro H. apply String.eqb_eq in H. rewrite H. vm_compute. reflexivity. Qed.
+
+Section AddSound.
+  Variable A : Type.
+  Notation V := (tensor A).
+  Variable sem : string -> list nat -> list V -> option (list V).
+  Hypothesis sem_proper : forall op ats vs vs' o, Forall2 teq vs vs' -> sem op ats vs = Some o ->
+    exists o', sem op ats vs' = Some o' /\ Forall2 teq o o'.
+  Hypothesis Htr : sem_transpose_spec A sem op_type.
+  Variable F : string -> list nat -> list A -> A.
+  Hypothesis Hpw : sem_pointwise_spec_a A sem op_type F.
+  Variable Fcl : list nat -> V -> A -> A.
+  Hypothesis Hcl : sem_castlike_spec_n A sem op_type Fcl.
+  Hypothesis Hcl_type : castlike_type_only A Fcl.
+  Hypothesis Hacc : sem_accepts_spec_a A sem op_type.
+  Notation evalg := (eval V sem).
+  Notation stepg := (step V sem).
+  Notation refinesg := (refines V teq sem).
+  Notation tadmissible := (tadmissible A sem).
+
+  Variables (g : tgraph) (st : addst) (p q : list nat) (e ef : env V).
+  Hypothesis Haf : add_facts g st p q.
+  Hypothesis Hadm : tadmissible g e.
+  Hypothesis Huni : uniform_operands A sem g e.
+  Hypothesis Hev : evalg (tg_nodes g) e = Some ef.
+  Let Hssa := tadm_ssa _ _ _ _ Hadm.
+  Let Hnd : NoDup (defs (tg_nodes g)) := proj1 Hssa.
+  Let r := add_region g st.
+
+  Lemma a_es_in c : In c (as_chain st) -> In c (tg_nodes g) /\ is_elem c = true /\ n_caps c = [] /\ is_add c = true.
+  Proof.
+    intro Hc. destruct (af_members _ _ _ _ Haf c Hc) as (H1 & H2 & _). repeat split; auto; [now apply is_add_elem|].
+    apply (af_caps _ _ _ _ Haf). apply in_or_app. now left.
+  Qed.
+  Lemma a_es_val c : In c (as_chain st) ->
+    exists vs yv, n_outs c = [out_of c] /\ lookups V ef (n_ins c) = Some vs /\ ef (out_of c) = Some yv /\
+      forall v, In v vs -> length (shape v) <= length (shape yv).
+  Proof.
+    intro Hc. destruct (a_es_in c Hc) as (H1 & H2 & H3 & H4).
+    destruct (elem_val A sem F Hpw Fcl Hcl g e ef c Hadm Huni Hev H1 H2 H3) as (vs & yv & Ho & Hl & Ey & [(Hcl0 & _)|(_ & Hle)]).
+    - unfold is_add in H4. apply String.eqb_eq in H4. rewrite H4 in Hcl0. discriminate.
+    - exists vs, yv. auto.
+  Qed.
+
+  Lemma a_T_val t pt : In t (tg_nodes g) -> is_T t = true -> perm_of t = Some pt -> n_caps t = [] ->
+    n_outs t = [out_of t] /\ exists x vx vy, n_ins t = [x] /\ ef x = Some vx /\ ef (out_of t) = Some vy /\
+      teq vy (transpose pt vx) /\ length pt = length (shape vx).
+  Proof.
+    intros Hin HT Hpt Hcaps.
+    destruct (tnode_final A sem Htr g e ef t pt Hadm Hev Hin HT Hpt) as (u & y & x & vy & Eu & Eo & Ex & Ey & Ht & Hl).
+    unfold n_uses in Eu. rewrite Hcaps, app_nil_r in Eu. unfold out_of. rewrite Eo. split; auto. exists u, x, vy. auto.
+  Qed.
+
+  Lemma a_ts t : In t (r_ts r) -> In t (tg_nodes g) /\ is_T t = true /\ perm_of t = Some p /\ n_caps t = [] /\
+    exists c iv, In c (as_chain st) /\ In iv (n_ins c) /\ producer (tg_nodes g) iv = Some t.
+  Proof.
+    intro Ht. pose proof Ht as Ht0. cbn [r add_region r_ts] in Ht. apply add_ts_spec in Ht as [[]|(iv & Hiv & Hp & HT & Hpe)].
+    rewrite (af_fwd _ _ _ _ Haf) in Hpe. apply permeq_eq in Hpe.
+    apply in_flat_map in Hiv as (c & Hc & Hivc). destruct (producer_spec _ _ _ Hp) as [Hin _].
+    repeat split; auto; [|eauto]. apply (af_caps _ _ _ _ Haf). apply in_or_app. right. apply in_or_app. now left.
+  Qed.
+  Lemma a_outs t : In t (r_outs r) -> In t (tg_nodes g) /\ is_T t = true /\ perm_of t = Some q /\ n_caps t = [] /\
+    exists c, In c (as_chain st) /\ In (out_of c) (n_ins t).
+  Proof.
+    intro Ht. pose proof Ht as Ht0. cbn [r add_region r_outs] in Ht. apply add_outs_spec in Ht as [[]|(c & o & Hc & Ho & Hcons & HT & Hpe)].
+    rewrite (af_inv' _ _ _ _ Haf) in Hpe. apply permeq_eq in Hpe.
+    unfold consumers in Hcons. apply filter_In in Hcons as [Hin Hread].
+    apply existsb_exists in Hread as (z & Hz & E). apply Nat.eqb_eq in E. subst z.
+    destruct (a_es_val c Hc) as (_ & _ & Hco & _). unfold out1 in Ho. rewrite Hco in Ho. simpl in Ho. injection Ho as <-.
+    repeat split; auto; [|eauto]. apply (af_caps _ _ _ _ Haf). apply in_or_app. right. apply in_or_app. now right.
+  Qed.
+
+  Lemma add_region_facts : region_facts g r p q.
+  Proof.
+    constructor.
+    - exact (af_ok _ _ _ _ Haf).
+    - intros c Hc. cbn [r add_region r_es] in Hc. destruct (a_es_in c Hc) as (H1 & H2 & H3 & _). destruct (a_es_val c Hc) as (_ & _ & Ho & _). auto.
+    - intros c u Hc Hu. cbn [r add_region r_es] in Hc. destruct (af_members _ _ _ _ Haf c Hc) as (_ & _ & Hins & _).
+      destruct (Hins u Hu) as (pr & Hpr & [Hin|(HT & pp & Hpp & Hfw)]).
+      + left. unfold outs_of. cbn [r add_region r_es]. apply in_map_iff. exists pr. split; auto.
+        destruct (a_es_val pr Hin) as (_ & _ & Ho & _). apply producer_spec in Hpr as [_ Hu']. rewrite Ho in Hu'. destruct Hu' as [E|[]]. exact E.
+      + right. left. exists pr. rewrite (af_fwd _ _ _ _ Haf) in Hfw. injection Hfw as <-.
+        assert (Hts : In pr (r_ts r)).
+        { cbn [r add_region r_ts]. apply add_ts_spec. right. exists u. repeat split; auto.
+          - apply in_flat_map. eauto.
+          - rewrite Hpp, (af_fwd _ _ _ _ Haf). unfold permeq, leqb.
+            assert (Hl : forall l, list_eqb Nat.eqb l l = true) by (induction l as [|x l IH]; simpl; [reflexivity | now rewrite Nat.eqb_refl]). apply Hl. }
+        split; auto. destruct (a_ts pr Hts) as (H1 & H2 & H3 & H4 & _). destruct (a_T_val pr p H1 H2 H3 H4) as (Ho & _).
+        apply producer_spec in Hpr as [_ Hu']. rewrite Ho in Hu'. destruct Hu' as [E|[]]. exact E.
+    - intros t Ht. destruct (a_ts t Ht) as (H1 & H2 & H3 & H4 & c & iv & Hc & Hiv & Hpr).
+      destruct (a_T_val t p H1 H2 H3 H4) as (Ho & x & _ & _ & Hx & _). repeat split; auto. exists x. repeat split; auto.
+      + intro HxD. unfold outs_of in HxD. cbn [r add_region r_es] in HxD. apply in_map_iff in HxD as (c' & Ec' & Hc').
+        destruct (a_es_in c' Hc') as (Hin' & _). destruct (a_es_val c' Hc') as (_ & _ & Ho' & _).
+        assert (Hpp : producer (tg_nodes g) x = Some c') by (apply producer_complete; auto; rewrite Ho', Ec'; now left).
+        refine (af_guard _ _ _ _ Haf c iv t x c' Hc Hiv Hpr H2 H3 _ Hpp Hc'). unfold first_in. now rewrite Hx.
+      + cbn [r add_region r_dead outs_of map]. intros [].
+    - intros t Ht. destruct (a_outs t Ht) as (H1 & H2 & H3 & H4 & c & Hc & Hread).
+      destruct (a_T_val t q H1 H2 H3 H4) as (Ho & x & _ & _ & Hx & _). repeat split; auto. exists x. repeat split; auto.
+      rewrite Hx in Hread. destruct Hread as [<-|[]]. unfold outs_of. cbn [r add_region r_es]. apply in_map_iff. eauto.
+    - intros t Ht Hto. destruct (a_ts t Ht) as (H1 & H2 & H3 & H4 & c & iv & Hc & Hiv & Hpr).
+      destruct (a_T_val t p H1 H2 H3 H4) as (Ho & x & _ & _ & Hx & _).
+      destruct (a_outs t Hto) as (_ & _ & _ & _ & c' & Hc' & Hread). rewrite Hx in Hread. destruct Hread as [E|[]].
+      destruct (a_es_in c' Hc') as (Hin' & _). destruct (a_es_val c' Hc') as (_ & _ & Ho' & _).
+      assert (Hpp : producer (tg_nodes g) x = Some c') by (apply producer_complete; auto; rewrite Ho', E; now left).
+      refine (af_guard _ _ _ _ Haf c iv t x c' Hc Hiv Hpr H2 H3 _ Hpp Hc'). unfold first_in. now rewrite Hx.
+    - intros t Ht. cbn [r add_region r_dead] in Ht. destruct Ht.
+    - intros y Hy. unfold outs_of in Hy. cbn [r add_region r_es] in Hy. apply in_map_iff in Hy as (c & <- & Hc).
+      destruct (af_members _ _ _ _ Haf c Hc) as (_ & _ & _ & out & Ho & Hobs & _). destruct (a_es_val c Hc) as (_ & _ & Hco & _).
+      unfold out1 in Ho. rewrite Hco in Ho. simpl in Ho. injection Ho as <-. now apply tobserved_false.
+    - intros y m Hy Hm Hym. unfold outs_of in Hy. cbn [r add_region r_es] in Hy. apply in_map_iff in Hy as (c & <- & Hc).
+      destruct (af_members _ _ _ _ Haf c Hc) as (_ & _ & _ & out & Ho & _ & Hcons). destruct (a_es_val c Hc) as (_ & _ & Hco & _).
+      assert (Ho1 : out1 c = Some (out_of c)) by (unfold out1; now rewrite Hco). rewrite Ho1 in Ho. injection Ho as <-.
+      assert (Hmc : In m (consumers (tg_nodes g) (out_of c))).
+      { unfold consumers. apply filter_In. split; auto. apply existsb_exists. exists (out_of c). split; auto. apply Nat.eqb_refl. }
+      destruct (Hcons m Hmc) as [Hin|(HT & pp & Hpp & Hiv)]; [left; exact Hin|]. right.
+      cbn [r add_region r_outs]. apply add_outs_spec. right. exists c, (out_of c). repeat split; auto.
+      rewrite Hpp, Hiv. unfold permeq, leqb.
+      assert (Hl : forall l, list_eqb Nat.eqb l l = true) by (induction l as [|x l IH]; simpl; [reflexivity | now rewrite Nat.eqb_refl]). apply Hl.
+  Qed.
+End AddSound.
